@@ -42,7 +42,7 @@ func init() {
 			"the wall clock only moves forward inside a bubble; TLS is not simulated",
 			"the attacker tries MD5/hex/base64 of the counter values within +-64 of identifiers disclosed to it",
 		},
-		RequiredProbes: []string{"c11.allowed", "c11.denied", "c11.after-edit", "c11.held-session-after-edit", "c11.entry.wsp-play.granted", "c11.entry.wsp-play.refused", "c11.entry.ws-flv.granted", "c11.entry.ws-flv.refused", "c11.entry.hls-segment.granted", "c11.entry.rtsp-publish.granted", "c11.entry.rtsp-publish.refused", "c11.wsp-foreign-channel-tried", "c11.user-switched-mid-session", "c11.administrator-demoted", "c11.connection-token-list", "c11.playlist-token-checked", "c11.delete-spelled-in-other-case", "c11.wsp-rtsp-url-names-other-stream"},
+		RequiredProbes: []string{"c11.allowed", "c11.denied", "c11.after-edit", "c11.held-session-after-edit", "c11.entry.wsp-play.granted", "c11.entry.wsp-play.refused", "c11.entry.ws-flv.granted", "c11.entry.ws-flv.refused", "c11.entry.hls-segment.granted", "c11.entry.rtsp-publish.granted", "c11.entry.rtsp-publish.refused", "c11.wsp-foreign-channel-tried", "c11.user-switched-mid-session", "c11.administrator-demoted", "c11.connection-token-list", "c11.playlist-token-checked", "c11.delete-spelled-in-other-case", "c11.wsp-rtsp-url-names-other-stream", "c11.rtsp-url-with-dot-segments"},
 	})
 }
 
@@ -423,6 +423,20 @@ func buildC11(tier string) sim.Scenario {
 				cl := sw.rtspConnect(fmt.Sprintf("rtsp%d", q), 256<<10)
 				r := &c11Rtsp{cl: cl, user: user, pw: u.pw}
 				base := "rtsp://10.9.0.1:554" + path
+				ename := "rtsp-play"
+				if tp.OneIn(3) {
+					// the same stream named by a URL with dot segments or a doubled slash, if possible through a directory the
+					// caller's own wildcard right covers: the decision is about the stream that is served
+					spelled := []string{"/." + path, "/" + path}[tp.Choose(2)]
+					for _, pat := range strings.Split(u.pull, ";") {
+						if strings.HasSuffix(pat, "/*") && len(pat) > 2 {
+							spelled = strings.TrimSuffix(pat, "/*") + "/.." + path
+						}
+					}
+					base = "rtsp://10.9.0.1:554" + spelled
+					ename = "rtsp-play(URL with dot segments)"
+					w.Probe("c11.rtsp-url-with-dot-segments")
+				}
 				got := false
 				detail := ""
 				m, err := r.do("DESCRIBE", base, map[string]string{"Accept": "application/sdp"}, "")
@@ -444,7 +458,7 @@ func buildC11(tier string) sim.Scenario {
 					got = true
 				}
 				cl.c.Close()
-				verdict("rtsp-play", user, "pull", path, got, detail)
+				verdict(ename, user, "pull", path, got, detail+" url "+base)
 			case 4: // RTSP digest publish
 				ppath := []string{"/push/alice", "/push/x", "/live/pub", "/push/" + user}[tp.Choose(4)]
 				cl := sw.rtspConnect(fmt.Sprintf("push%d", q), 256<<10)
